@@ -582,7 +582,8 @@ def run_campaign(camp, tier, seed, wd):
         i, phases = arg
         phases = [dict(p_, salt=(seed * 31 + 7 * k_ + i) % 9973) for k_, p_ in enumerate(phases)]
         return P.generate(phases, wd, module=camp["gen"][0], cfg=camp["gen"][1],
-                          name="gen_%s_%d" % (camp["name"], i), extra_env=genv)
+                          name="gen_%s_%d" % (camp["name"], i), extra_env=genv,
+                          timeout=900 if tier == "quick" else 5400)
     with cf.ThreadPoolExecutor(max_workers=4) as ex_:
         for b, st in ex_.map(gen_one, list(enumerate(camp["phases"][tier]))):
             behaviours.extend(b)
